@@ -27,8 +27,9 @@ type Graph struct {
 	factsPSCache *Solution[FactsPS]
 
 	// inlined graphs (inline.go): every location of a node (helpers expanded at several call sites), what was expanded
-	nodeAll map[ast.Node][]nodeLoc
-	inl     *inlineInfo
+	nodeAll   map[ast.Node][]nodeLoc
+	inl       *inlineInfo
+	deadEdges map[*cfg.Block][]bool
 }
 
 type nodeLoc struct {
@@ -272,6 +273,10 @@ type Lattice[S any] struct {
 	Join  func(a, b S) S
 	Eq    func(a, b S) bool
 	Step  func(s S, st Step) S // must not mutate its argument
+	// SkipEdge (optional): the edge b -> b.Succs[i] is infeasible and is not propagated along
+	SkipEdge func(b *cfg.Block, i int) bool
+	// Dead (optional): the state describes an infeasible point and is not propagated
+	Dead func(s S) bool
 }
 
 type Solution[S any] struct {
@@ -304,9 +309,15 @@ func Solve[S any](g *Graph, l Lattice[S]) *Solution[S] {
 		inWork[b] = false
 		out := sol.blockOut(b)
 		for i, s := range b.Succs {
+			if l.SkipEdge != nil && l.SkipEdge(b, i) {
+				continue
+			}
 			st := out
 			for _, es := range g.edgeSteps(b, i) {
 				st = l.Step(st, es)
+			}
+			if l.Dead != nil && l.Dead(st) {
+				continue
 			}
 			if !sol.has[s] {
 				sol.in[s] = st
@@ -873,8 +884,13 @@ func (g *Graph) eventsAt(cl Classifier, depth int, cache map[*FuncInfo]*evSummar
 		sort.Strings(must)
 		return
 	}
+	var skip func(b *cfg.Block, i int) bool
+	if g.inl != nil {
+		skip = g.deadEdge
+	}
 	l := Lattice[EvState]{
-		Init: EvState{Must: strset{}, Max: map[string]int{}, Deferred: strset{}},
+		SkipEdge: skip,
+		Init:     EvState{Must: strset{}, Max: map[string]int{}, Deferred: strset{}},
 		Join: func(a, b EvState) EvState {
 			mx := copyMax(a.Max)
 			for k, v := range b.Max {
@@ -1010,6 +1026,23 @@ func (g *Graph) eventsAt(cl Classifier, depth int, cache map[*FuncInfo]*evSummar
 				m, y := calleeEvents(st.Node)
 				evs = append(evs, m...)
 				may = y
+				// defer helper(...): what the helper does on every path happens at the exit
+				if d, isDefer := st.Node.(*ast.DeferStmt); isDefer && depth < 2 && g.Fi != nil {
+					if _, isLit := ast.Unparen(d.Call.Fun).(*ast.FuncLit); !isLit {
+						if fn := calleeOf(g.Info, d.Call); fn != nil {
+							if callee := g.P.FuncOf(fn); callee != nil && callee != g.Fi && callee.Decl.Body != nil && callee.Pkg == g.Fi.Pkg {
+								if sum := g.calleeSummary(cl, callee, depth, cache); sum != nil {
+									var ms []string
+									for e := range sum.must {
+										ms = append(ms, e)
+									}
+									sort.Strings(ms)
+									evs = append(evs, ms...)
+								}
+							}
+						}
+					}
+				}
 			}
 			if st.Kind == StCond && depth < 2 {
 				if callee, neg := g.condCallee(st.Node); callee != nil && g.isBranchCond(st.Node) {
@@ -1207,4 +1240,32 @@ func (g *Graph) okHelperAssign(n ast.Node) (string, *FuncInfo) {
 		}
 	}
 	return id.Name, callee
+}
+
+// deadEdge: the guard facts prove that the edge b -> b.Succs[i] cannot be taken (the branch condition contradicts
+// what is known at the end of b). Used by the other analyses of inlined graphs, where the copies of a branch that
+// follow the different returns of a helper each know the value that was returned.
+func (g *Graph) deadEdge(b *cfg.Block, i int) bool {
+	if g.deadEdges == nil {
+		g.deadEdges = map[*cfg.Block][]bool{}
+		sol := g.GuardFacts()
+		lat := g.factsLattice()
+		for _, blk := range g.CFG.Blocks {
+			if !sol.has[blk] || len(blk.Succs) < 2 {
+				continue
+			}
+			out := sol.blockOut(blk)
+			flags := make([]bool, len(blk.Succs))
+			for j := range blk.Succs {
+				st := out
+				for _, es := range g.edgeSteps(blk, j) {
+					st = lat.Step(st, es)
+				}
+				flags[j] = st.dead
+			}
+			g.deadEdges[blk] = flags
+		}
+	}
+	fl := g.deadEdges[b]
+	return i < len(fl) && fl[i]
 }
